@@ -91,6 +91,8 @@ type script struct {
 type res struct {
 	Err   string `json:"err"`
 	V     int    `json:"v"`
+	Err2  string `json:"err2"` // second call of a concurrent pair ("Par")
+	V2    int    `json:"v2"`
 	Pok   bool   `json:"pok"`
 	Panic string `json:"panic"`
 }
@@ -171,6 +173,7 @@ type world struct {
 	served map[string]int // index documents handed to the servers -> tag
 
 	mu       sync.Mutex
+	parSlow  bool // during a concurrent pair every complete answer takes a few milliseconds, so that the calls overlap
 	idxMode  [2][2]string
 	idxBody  [2][2][]byte
 	fileMode [2][3][6]string
@@ -264,7 +267,11 @@ func serve(rw http.ResponseWriter, rq *http.Request) {
 		mode = w.fileMode[u-1][a-1][v-1]
 		body = fileBody(a-1, v-1)
 	}
+	parSlow := w.parSlow
 	w.mu.Unlock()
+	if parSlow && mode == "ok" {
+		time.Sleep(8 * time.Millisecond)
+	}
 	switch mode {
 	case "slow":
 		time.Sleep(15 * time.Millisecond)
@@ -481,6 +488,48 @@ func (w *world) exec(o op) (r res) {
 		default:
 			return res{Err: "fetch"}
 		}
+	case "Par":
+		// DownloadUpdates(includeManual) and GetFile(identifier) at the same time
+		if o.R < 1 || o.R > 3 {
+			return res{Err: "badscript"}
+		}
+		w.mu.Lock()
+		w.parSlow = true
+		w.mu.Unlock()
+		defer func() {
+			w.mu.Lock()
+			w.parSlow = false
+			w.mu.Unlock()
+		}()
+		start := make(chan struct{})
+		out := make(chan res, 2)
+		go func() {
+			defer func() {
+				if p := recover(); p != nil {
+					out <- res{Err: "panic", Panic: "DownloadUpdates: " + fmt.Sprint(p)}
+				}
+			}()
+			<-start
+			out <- w.exec(op{Op: "Download", Flag: o.Flag})
+		}()
+		var g res
+		func() {
+			defer func() {
+				if p := recover(); p != nil {
+					g = res{Err: "panic", Panic: "GetFile: " + fmt.Sprint(p)}
+				}
+			}()
+			close(start)
+			g = w.exec(op{Op: "GetFile", R: o.R})
+		}()
+		d := <-out
+		if d.Panic != "" {
+			return d
+		}
+		if g.Panic != "" {
+			return g
+		}
+		return res{Err: d.Err, Err2: g.Err, V2: g.V, Pok: g.Pok}
 	case "Blacklist":
 		if o.I < 1 || o.I > len(w.files) {
 			return res{Err: "nohandle"}
